@@ -125,7 +125,9 @@ def _contiguous_frame_outcome(chk, gc):
     env = ModuleEnv(chk.repo, gc.module, it, {"pd": PDc(), "pandas": PDc()})
     me = AbsObj({"_HourlyData"}, tz=Opaque("tz"))
     try:
-        res = Function(gc.node, env, it)(me, FTok("input"))
+        # a method (self, df) or, when it was turned into a module-level function, (df)
+        args_ = (me, FTok("input")) if (gc.params[:1] in (["self"], ["cls"])) else (FTok("input"),)
+        res = Function(gc.node, env, it)(*args_)
     except InterpRaised as e:
         return {"raises": e.exc_name}
     except Unsupported as e:
